@@ -458,9 +458,22 @@ def resolve_combinator(prog: Program, mod: Module, fn: ast.AST, expr: ast.AST, a
         return tuple(params[:2]), inline(fn, value, at), info, "lambda"
     if isinstance(expr, ast.Call):
         res = resolve_callee(prog, mod, expr.func)
+        if (res is None or not isinstance(res[1], FuncNode)) and isinstance(expr.func, ast.Name):
+            # a factory defined locally, in the function that uses it
+            local = [sub for sub in walk_no_nested(fn) if isinstance(sub, FuncNode) and sub.name == expr.func.id]
+            if len(local) == 1:
+                res = (mod, local[0])
         if res and isinstance(res[1], FuncNode):
             cmod, factory = res
             rets = [n for n in walk_no_nested(factory) if isinstance(n, ast.Return) and n.value is not None]
+            if len(rets) == 1 and isinstance(rets[0].value, ast.Name):
+                # `def factory(c): def comb(l, r): return Candidate(...); return comb`
+                inner = [sub for sub in walk_no_nested(factory) if isinstance(sub, FuncNode) and sub.name == rets[0].value.id]
+                if len(inner) == 1:
+                    irets = [n for n in walk_no_nested(inner[0]) if isinstance(n, ast.Return) and n.value is not None]
+                    if len(irets) == 1:
+                        lam_args = inner[0].args
+                        rets = [ast.Return(value=ast.Lambda(args=lam_args, body=irets[0].value))]
             if len(rets) == 1 and isinstance(rets[0].value, ast.Lambda):
                 lam = rets[0].value
                 fparams = func_params(factory)
@@ -644,7 +657,7 @@ def _extract(prog: Program, mod: Module, modname: str, fn: ast.AST, comb_calls: 
                 if isinstance(val, (ast.Tuple, ast.List)) and -len(val.elts) <= cand.slice.value < len(val.elts):
                     cand = val.elts[cand.slice.value]
             resolved.append(cand)
-        cands = resolved
+        cands = [_inline_candidate_helper(fn, c) for c in resolved]
         for cand in cands:
             if not (isinstance(cand, ast.Call) and dotted(cand.func) == "Candidate"):
                 raise AnalysisError(f"{fn.name}: `{short(cand)}` offered to an entry is not a Candidate(...)")
@@ -676,6 +689,35 @@ def _extract(prog: Program, mod: Module, modname: str, fn: ast.AST, comb_calls: 
     rec = Recurrence(mod, modname, fn, combines, classes, model, pk, root_species, root_object)
     _annotate_sites(rec)
     return rec
+
+
+def _inline_candidate_helper(fn: ast.AST, cand: ast.AST) -> ast.AST:
+    """`helper(a, b)` where `helper` is a local def whose single return is a Candidate(...): the construction with
+    the helper's parameters replaced by the arguments and its local assignments expanded."""
+    if not (isinstance(cand, ast.Call) and isinstance(cand.func, ast.Name) and dotted(cand.func) != "Candidate"):
+        return cand
+    local = [sub for sub in walk_no_nested(fn) if isinstance(sub, FuncNode) and sub.name == cand.func.id]
+    if len(local) != 1:
+        return cand
+    helper = local[0]
+    rets = [n for n in walk_no_nested(helper) if isinstance(n, ast.Return) and n.value is not None]
+    if len(rets) != 1 or not (isinstance(rets[0].value, ast.Call) and dotted(rets[0].value.func) == "Candidate"):
+        return cand
+    if any(isinstance(n, (ast.If, ast.For, ast.While)) for n in walk_no_nested(helper)):
+        return cand
+    body = inline(helper, rets[0].value, rets[0])
+    params = func_params(helper)
+    amap: Dict[str, ast.AST] = {}
+    for idx, arg in enumerate(cand.args):
+        if idx < len(params):
+            amap[params[idx]] = arg
+    for kw in cand.keywords:
+        if kw.arg:
+            amap[kw.arg] = kw.value
+    out = _substitute(body, amap)
+    for n in ast.walk(out):
+        ast.copy_location(n, cand) if not hasattr(n, "lineno") else None
+    return ast.copy_location(out, cand)
 
 
 def _inside(fn: ast.AST, node: ast.AST) -> bool:
